@@ -102,7 +102,7 @@ CANDIDATES = {
     "unclosedelements": [True, False],
     "org": ["ORG", "O%G"],
     "user": ["alice", "bob"],
-    "checking": [["123"], ["1", "22"], ["A-1", "B-2", "C-3"]],
+    "checking": [["123"], ["1", "22"], ["A-1", "B-2", "C-3"], ["12 3456 789"]],
     "creditcard": [["4111"], ["1", "2"]],
     "useragent": ["UA/1"],
     "clientuid": ["CUID-1"],
@@ -283,7 +283,7 @@ META = dict(
                             "--write, then a run without the option, then another --write"),
     models=["instrumented merge_config/extractns/read_config/convert_list/merge_from_ofxhome/write_config/mk_server_cfg/test_cfg_val/arg2config",
             "configparser and the user file are real (a private temporary directory); ofxhome.lookup is stubbed"],
-    assumptions=["argparse itself and the FI database content are outside the claim; option values are concrete candidates (configparser rejects symbolic strings), list elements without ', [ ] or blanks"],
+    assumptions=["argparse itself and the FI database content are outside the claim; option values are concrete candidates (configparser rejects symbolic strings), list elements without ', [ ] or leading/trailing blanks"],
 )
 
 
